@@ -188,8 +188,10 @@ func (r *ProduceRequest) decode(pd packetDecoder, version int16) error {
 				return err
 			}
 			var records Records
-			if err := records.decode(recordsDecoder); err != nil {
-				return err
+			if size > 0 {
+				if err := records.decode(recordsDecoder); err != nil {
+					return err
+				}
 			}
 			r.records[topic][partition] = records
 		}
